@@ -14,6 +14,7 @@ THEOREMS = {
     "C05_substitution_invisible": "full",
     "C05_conservation": "full",
     "C05_conservation_inst": "full",
+    "C05_conservation_resolve": "full",
     "C05_example_accepted": "example",
     # C05_nodes_exactly_once (occurrence count outside references; deleted roots = folded definitions): NOT proved,
     # stated in a comment of Props/C05.v; covered by the oracle + correspondence only.
